@@ -9,3 +9,4 @@ driver("drv_byteio", variant="asan", cflags="-fno-access-control")
 driver("drv_endian", variant="plain")
 driver("drv_args", variant="plain", cflags="-fno-access-control")
 driver("drv_strings", variant="asan")
+driver("drv_fileio", variant="asan", cflags="-fno-access-control", ldflags="-Wl,--wrap=read -Wl,--wrap=pread -Wl,--wrap=close")
